@@ -1,12 +1,25 @@
 #!/bin/bash
 # Builds the whole Coq development (full .vo build) from files on disk only.
-set -e
+# Translator-generated files (coq/Gen/*.v) are regenerated from /repo first.
 HERE="$(cd "$(dirname "$0")" && pwd)"
-cd "$HERE/coq"
-mkdir -p "$HERE/.cache"
-/venv/bin/python - <<PY
-import sys; sys.path.insert(0, "$HERE")
+cd "$HERE"
+mkdir -p "$HERE/.cache/numba" "$HERE/.cache/tmp" "$HERE/coq/Gen"
+export VERIF_REPO="${VERIF_REPO:-/repo}"
+export PYTHONPATH="$VERIF_REPO/src:$HERE" PYTHONHASHSEED=0 NUMBA_CACHE_DIR="$HERE/.cache/numba" MPLBACKEND=Agg
+/venv/bin/python -W ignore - <<'PY'
+import glob, importlib, os, sys, traceback
 from harness import core
+for f in sorted(glob.glob(os.path.join(core.VERIF, "harness", "props", "c[0-9]*.py"))):
+    name = os.path.basename(f)[:-3]
+    try:
+        mod = importlib.import_module("harness.props." + name)
+        if getattr(mod.PROP, "translator_output", False):
+            ok, log = mod.PROP.regenerate()
+            print(f"[setup] regenerate {name}: {'ok' if ok else 'FAILED ' + log[-500:]}")
+    except Exception:
+        print(f"[setup] {name}: import/regenerate failed\n{traceback.format_exc()[-800:]}")
 core.ensure_project()
 PY
-timeout 3000 make -j16 -k 2>&1 | tail -n 30
+cd "$HERE/coq"
+timeout 5400 make -j16 -k 2>&1 | tail -n 15
+exit 0
